@@ -181,12 +181,19 @@ pub fn run_a(ctx: &Ctx) -> Coverage {
 }
 
 pub fn run(ctx: &Ctx) -> Coverage {
+    if std::env::var("VERIF_SHARD").is_ok() {
+        super::c10b::run(ctx);
+        unreachable!();
+    }
     let mut cov = Coverage::aggregate();
     cov.absorb("a-scm-handover", run_a(ctx));
+    cov.absorb("b-stop-with-traffic", super::c10b::run(ctx));
     cov
 }
 
 pub fn replay(ctx: &Ctx, case: &Value) -> Coverage {
-    let _ = case;
+    if case["part"] == "b" {
+        return super::c10b::replay_case(ctx, case);
+    }
     run(ctx)
 }
